@@ -16,7 +16,19 @@ K_RP, K_CONS, K_AGG = 0, 1, 2
 
 
 def uuid_of(n, kind=K_RP):
-    return str(uuidlib.UUID(int=(kind << 64) | (n + 1)))
+    # hex letters in the node part, so that an upper-case spelling differs from the stored string
+    return str(uuidlib.UUID(int=(kind << 64) | (0xabcdef << 24) | (n + 1)))
+
+
+def spell(n, kind=K_RP):
+    """uuid of token n; tokens >= 1000 encode an ALTERNATE SPELLING of the uuid of provider (n - 1000) // 10:
+    upper case, undashed hex, braces, urn:uuid: - valid for the 'uuid' format of the schemas, but not the stored
+    string (the model treats such a token as naming no provider)"""
+    if isinstance(n, int) and n >= 1000 and kind == K_RP:
+        base = uuid_of((n - 1000) // 10, kind)
+        style = n % 10
+        return [base.upper(), base.replace('-', ''), '{%s}' % base, 'urn:uuid:' + base][style % 4]
+    return uuid_of(n, kind)
 
 
 def tok_of_uuid(s):
@@ -24,7 +36,7 @@ def tok_of_uuid(s):
         i = uuidlib.UUID(s).int
     except Exception:
         return -2
-    return (i & ((1 << 64) - 1)) - 1
+    return (i & ((1 << 24) - 1)) - 1
 
 
 def rp_name(n):
@@ -262,13 +274,13 @@ def op_http(op):
         _, v, u, name, parent = op
         b = {'name': rp_name(name), 'uuid': uuid_of(u)}
         if parent is not None:
-            b['parent_provider_uuid'] = uuid_of(parent)
+            b['parent_provider_uuid'] = spell(parent)
         return ('POST', '/resource_providers', b, ver(v))
     if k == 'rp_update':
         _, v, u, name, parent = op
         b = {'name': rp_name(name)}
         if parent != 'absent':
-            b['parent_provider_uuid'] = None if parent is None else uuid_of(parent)
+            b['parent_provider_uuid'] = None if parent is None else spell(parent)
         return ('PUT', '/resource_providers/%s' % uuid_of(u), b, ver(v))
     if k == 'rp_delete':
         return ('DELETE', '/resource_providers/%s' % uuid_of(op[1]), None, ver(39))
